@@ -231,7 +231,7 @@ def run(pid, tier, seed):
             rep.violation("library crashed in an edit/solve history at %r: %s" % (bad, tr.crashed[-500:]),
                           {"start": start, "ops": ops, "ops_until_crash": prefix, "stderr": tr.stderr[-2500:]},
                           signature={"symptom": "crash", "at": bad.split(" ")[0] + (" " + bad.split(" ")[2] if bad.startswith("solve") else ""),
-                                     "after": (prefix[-2].split(" ")[0] if len(prefix) > 1 else "-")})
+                                     "after": (prefix[-2].split(" ")[0] if len(prefix) > 1 else "-"), "cause": core.crash_cause(tr.stderr)})
         # walk
         cur_lp = None
         last_edit = None
